@@ -72,6 +72,11 @@ class SimConnection(BaseNetQASMConnection):
             for y in g:
                 yield y
 
-    def drain_now(self) -> None:
+    def drain_now(self, max_steps: int = 100000) -> None:
+        n = 0
         for _ in self.drain():
-            pass
+            n += 1
+            if n > max_steps:
+                from sim.core import Violation
+                raise Violation("controller", "controller-does-not-terminate",
+                                {"steps": n, "note": "an SDK-emitted subroutine ran past the step cap on the controller"})
